@@ -56,6 +56,9 @@ func schedCmd(args []string) int {
 			scs = append(scs, rig.GenScenario(*family, *first+i, rng))
 		}
 	}
+	if *family == "retry" && *scfile == "" {
+		return retryPairs(scs, *out, *dump)
+	}
 	logDir, err := os.MkdirTemp("", "vh-sched-")
 	if err != nil {
 		fmt.Fprintln(os.Stderr, "INFRA", err)
@@ -94,6 +97,73 @@ func schedCmd(args []string) int {
 	}
 	fmt.Printf("{\"scenarios\": %d, \"events\": %d, \"infra\": %d}\n", len(scs), tr.Len(), infra)
 	if infra > 0 {
+		return 2
+	}
+	return 0
+}
+
+// retryPairs: every scenario is run once (possibly stopped, possibly "killed" at a random move, i.e. its
+// status vector is snapshotted there) and then retried from the recorded vector: family "retry" (C10).
+func retryPairs(scs []rig.Scenario, out, dump string) int {
+	logDir, err := os.MkdirTemp("", "vh-sched-")
+	if err != nil {
+		fmt.Fprintln(os.Stderr, "INFRA", err)
+		return 2
+	}
+	defer os.RemoveAll(logDir)
+	os.Setenv("HOME", logDir)
+	tr := &rig.Tracer{}
+	var all []rig.Scenario
+	infra := 0
+	for _, sc := range scs {
+		rng := rand.New(rand.NewSource(sc.Seed))
+		first := sc
+		first.ID = sc.ID * 2
+		first.SnapAt = 1 + rng.Intn(12*sc.N)
+		info, err := rig.RunSchedInfo(first, tr, logDir, false)
+		all = append(all, first)
+		if err != nil {
+			fmt.Fprintf(os.Stderr, "INFRA scenario %d: %v\n", first.ID, err)
+			infra++
+			continue
+		}
+		second := sc
+		second.ID = sc.ID*2 + 1
+		second.Seed = sc.Seed + 1
+		second.Stop, second.Kill, second.Timeout = false, false, false
+		second.FailK = append([]int{}, sc.FailK...)
+		second.Init = info.Final
+		if info.Snap != nil && rng.Intn(2) == 0 {
+			second.Init = info.Snap // the run was killed at that instant
+		}
+		for i := range second.FailK {
+			if rng.Intn(3) > 0 {
+				second.FailK[i] = 0 // most steps succeed the second time
+			}
+		}
+		if _, err := rig.RunSchedInfo(second, tr, logDir, false); err != nil {
+			fmt.Fprintf(os.Stderr, "INFRA scenario %d: %v\n", second.ID, err)
+			infra++
+		}
+		all = append(all, second)
+	}
+	f, err := os.Create(out)
+	if err != nil {
+		fmt.Fprintln(os.Stderr, "INFRA", err)
+		return 2
+	}
+	rig.WriteND(f, tr.Events())
+	f.Close()
+	if dump != "" {
+		df, _ := os.Create(dump)
+		enc := json.NewEncoder(df)
+		for _, sc := range all {
+			enc.Encode(sc)
+		}
+		df.Close()
+	}
+	fmt.Printf("{\"scenarios\": %d, \"events\": %d, \"infra\": %d}\n", len(all), tr.Len(), infra)
+	if infra > 3 {
 		return 2
 	}
 	return 0
